@@ -180,6 +180,15 @@ def intrude(v, srv, clients, what, cfg, replay):
                     v.violation("C12/leak", f"{cfg}: reply to an intruder carries transfer data", replay)
                 return "answered-error"
             except socket.timeout:
+                # believe a missing answer only after a second, patient attempt
+                s.settimeout(3.0)
+                s.sendto(pkt, srv.addr)
+                try:
+                    buf, src = s.recvfrom(2048)
+                    if N.dec(buf)[0] == "ERROR":
+                        return "answered-error-late"
+                except socket.timeout:
+                    pass
                 v.violation(f"C12/intruder-not-answered/{kind}", f"{cfg}: {kind} from an endpoint owning no transfer, sent to the listening port, got no ERROR reply", replay)
                 return "silent"
         else:
